@@ -141,6 +141,13 @@ Definition taffine (a c : Q) (f : facet) : facet :=
 Definition fscale (k : Q) (f : facet) : facet :=
   mkFacet (map (Qmult k) (fnormal f)) (k * foffset f)%Q (fverts f).
 Definition paffine (a c : Q) (p : list Q) : list Q := (a * hd 0%Q p + c)%Q :: tl p.
+(* two optional distances, the second a times the first *)
+Definition orel (a : Q) (o o' : option Q) : Prop :=
+  match o, o' with
+  | Some m, Some m' => (m' == a * m)%Q
+  | None, None => True
+  | _, _ => False
+  end.
 
 (* ================================================================ Part 2: specification over Z *)
 (* points are rows  y :: x_1 .. x_d  of integers *)
@@ -230,8 +237,12 @@ Fixpoint pop (st : list (Z * Z)) (p : Z * Z) : list (Z * Z) :=
 Definition push (st : list (Z * Z)) (p : Z * Z) : list (Z * Z) := p :: pop st p.
 Definition chain (pts : list (Z * Z)) : list (Z * Z) := rev (fold_left push pts []).
 
-(* brute-force 1-D specification: q lies on or above a segment between two other points
-   that straddle it *)
+Definition pt := (Z * Z)%type.
+Definition xlt (a b : pt) : Prop := fst a < fst b.
+(* 1-D specification: q lies on or above a segment between two other points that straddle it *)
+Definition not_lower_1d (pts : list pt) (q : pt) : Prop :=
+  exists a b, In a pts /\ In b pts /\ fst a < fst q /\ fst q < fst b /\ 0 <= cross a b q.
+(* ... and its brute-force decision procedure *)
 Definition not_lower_1d_b (pts : list (Z * Z)) (q : Z * Z) : bool :=
   existsb (fun a => existsb (fun b =>
      (fst a <? fst q) && (fst q <? fst b) && (0 <=? cross a b q)) pts) pts.
